@@ -69,6 +69,7 @@ def maptext_strategy(tier):
             "sep": st.sampled_from([" ", "  ", "\t"]),
             "pad": st.booleans(),
             "anchor": st.integers(0, 50),
+            "trim": st.booleans(),
             "avoid": _avoid_field(),
         }
     )
@@ -90,6 +91,15 @@ def _truth(case):
         f = fill[n % len(fill)]
         if f:
             contents[cell] = labels[(f - 1) % len(labels)]
+    if case.get("trim"):
+        # leave whole rows empty at the end a user may leave out (see c18_maps.render_rows): 1..R bottom rows of a corners-up
+        # map, the top row(s) of a Cartesian map
+        if kind == "hexFullTips" and size >= 1:
+            nrows = 1 + case["cut"] % size
+            contents = {(i, j): v for (i, j), v in contents.items() if i + j >= -size + nrows}
+        elif kind == "cart" and size[1] >= 2:
+            nrows = 1 + case["cut"] % (size[1] - 1)
+            contents = {(i, j): v for (i, j), v in contents.items() if j < size[1] - nrows}
     # anchors: the conventions infer the map size from the longest row, so one longest row must end in a real label
     R = size if kind != "cart" else None
     a = case["anchor"]
@@ -113,13 +123,16 @@ def _nonblank(d):
 def maptext_execute(case):
     out = Out()
     kind, size, cut, contents = _truth(case)
-    rows, offs = mm.render_rows(kind, size, contents, cut=cut, strip_trailing=case["strip"])
+    rows, offs = mm.render_rows(kind, size, contents, cut=cut, strip_trailing=case["strip"], trim_rows=bool(case.get("trim")))
     text = mm.rows_to_text(rows, offs, sep=case["sep"], pad=case["pad"])
     expected = mm.read_rows(kind, mm.tokenize(text))
     if _nonblank(expected) != contents:  # the model's reader and renderer must agree with each other
         raise AssertionError("c18_maps model inconsistent for %r: %r != %r" % (case, _nonblank(expected), contents))
     holes = sum(1 for v in expected.values() if v == mm.PLACEHOLDER)
     out.nontrivial = len(contents) >= 3 and holes >= 1
+    full_rows = 2 * size + 1 if kind == "hexFullTips" else (size[1] if kind == "cart" else 0)
+    if len(rows) < full_rows:
+        out.label("rows-left-out:" + kind)
     out.label("kind:" + kind, "holes" if holes else "full", "cut%d" % cut if kind == "hexFullFlat" else "nocut",
               "width%d" % max(len(v) for v in contents.values()))
     cls = _map_class(kind)
@@ -345,7 +358,7 @@ def gridsave_execute(case):
         tcase = dict(case["text"], kind=kind)
         _k, size, cut, contents = _truth(tcase)
         contents = _avoid_known_frame_shapes(out, kind, contents, LABELSETS[tcase["labels"]][0], avoid)
-        rows, offs = mm.render_rows(kind, size, contents, cut=cut, strip_trailing=tcase["strip"])
+        rows, offs = mm.render_rows(kind, size, contents, cut=cut, strip_trailing=tcase["strip"], trim_rows=bool(tcase.get("trim")))
         text = mm.rows_to_text(rows, offs, sep=" " if tcase["sep"] == "\t" else tcase["sep"], pad=tcase["pad"])
         full = mm.read_rows(kind, mm.tokenize(text))
         if cart_full:
